@@ -6,6 +6,19 @@ from . import evidence, misc_jobs, p_ctx_common, p_wrap_common, runner
 
 def check(tier, seed, only=None):
     rep = evidence.Report("C08", tier, seed)
+    # the bounded native check (builds every library object: about two minutes) runs beside the proofs
+    import threading
+    from . import native
+    lmax, smax = (80, 40) if tier == "quick" else (400, 100)
+    gbox = {}
+
+    def _gcm():
+        try:
+            gbox["d"] = native.gcm_guard(os.path.join(runner.scratch(), "native_gcm"), lmax, smax, seed)
+        except Exception as e:  # reported below as undecided
+            gbox["e"] = e
+    gthread = threading.Thread(target=_gcm)
+    gthread.start()
     # copy helpers of include/memcpy_inline.h: every constant length 0..128 (the callers' domain)
     jobs = misc_jobs.memcpy_jobs(128)
     if only:
@@ -22,8 +35,28 @@ def check(tier, seed, only=None):
     # wrappers: no dereference of any argument before the guards (invalid pointers in the harness)
     p_wrap_common.run_wrappers(rep, fips=False, legacy=False, only=only)
     rep.default_replays()
+    # bounded stand-in for the NASM AES-GCM families (added after seed C08_b): guard pages around every caller-supplied range
+    try:
+        gthread.join()
+        if "e" in gbox:
+            raise gbox["e"]
+        d = gbox["d"]
+        rep.bounded.append({"what": "AES-GCM one-shot and init/update/update/finalize of the sse, avx_gen2, avx_gen4 and vaes_avx512 families (internal entry "
+                                    "points, 128/256, enc/dec): every range (in, out, IV, AAD, tag) ends at / begins after an unmapped page; no fault, inputs "
+                                    "unmodified, results independent of the placement; the _nt variants are not covered",
+                            "label": "bounded", "bound": "one-shot len 0..%d x 5 AAD lengths x tag 8/12/16; streaming update(p), update(L) for p, L in 0..%d" % (lmax, smax),
+                            "evaluations": d["calls"], "distinct_nontrivial": d["cases"], "agree": d["ok"], "families": d["families"], "cmd": d["cmd"]})
+        if not d["ok"]:
+            path = os.path.join(rep.replay_dir(), "gcm_guard.txt")
+            with open(path, "w") as f:
+                f.write("native/gcm_guard.c on the real assembly from /repo\n$ " + d["cmd"] + "\n" + d["text"])
+            first = [l for l in d["text"].split("\n") if l.startswith(("FAULT", "MODIFIED", "DIFFERENT"))] or [d["text"][-200:]]
+            rep.add_violation("native/gcm_guard:aes_gcm:ranges", "bounded guard-page check on the real assembly: " + first[0][:260], path, True)
+    except Exception as e:
+        rep.add_undecided("native AES-GCM guard-page check could not be built/run: %s" % e)
     rep.assumptions.append("RESTRICTED TO C: the NASM kernels (about 80% of the library's loads and stores) are out of CBMC's reach; "
-                           "for them C08 is not decided here (the rolling-hash scan and the hash managers get bounded native contract checks under C09/C05)")
+                           "for them C08 is not decided here; bounded native checks: AES-GCM families with guard pages (here), rolling-hash scans (C09), hash managers (C01/C06), "
+                           "multi-hash block functions (C05); AES-XTS, AES-CBC and key expansion have none")
     rep.notes.append("every object handed to a function under proof is allocated with exactly its documented size, so a one-byte over-read or "
                      "over-write is a failed pointer/bounds obligation; inputs are absent from every assigns clause (frame check)")
     rep.notes.append("mh update/tail/finalize (C05/C10) and rolling init (C09) carry the same pointer/bounds obligations; they are counted under those properties")
